@@ -52,7 +52,7 @@ u.extract(M, 'impl MemoryLoc::fn write_val', wrap=IMPL, contract='''
     ensures
         // exactly one store: the bytes of x at loc + offset
         final(builder).log@ == old(builder).log@.push(Ev::Write { base: loc_base(*self),
-            lo: loc_off(*self) + offset, hi: loc_off(*self) + offset + den_bytes(x.den@) }),
+            lo: loc_off(*self) + offset, hi: loc_off(*self) + offset + den_bytes(x.den@), val: x.den@ }),
         final(builder).slots == old(builder).slots,
 ''')
 
